@@ -74,7 +74,7 @@ theorem exRootX_ok : RootOK exRootX [] where
 
 /-- whatever the oracle: the model pivots once and returns the solution node `x = 1` -/
 theorem exRootX_run (cc : Mat → Option Bool) :
-    ∃ r, solve cc {} false 5 exRootX [] = .done r ∧ (resToTree r).eval [] = .point [1] :=
+    ∃ r, solveAsWritten cc {} false 5 exRootX [] = .done r ∧ (resToTree r).eval [] = .point [1] :=
   ⟨_, rfl, by decide⟩
 
 /-! ### the witness of KF-C07-12 -/
@@ -94,7 +94,7 @@ def kfRoot : SolNode :=
     big := none, arts := [], cons := [] }
 
 def kfTree : PPLV.PIP.Tree :=
-  match solve (ccModel 40) { cut := 0, piv := 1 } false 40 kfRoot [] with
+  match solveAsWritten (ccModel 40) { cut := 0, piv := 1 } false 40 kfRoot [] with
   | .done r => resToTree r
   | .fuel => .dec [] [] .bottom .bottom
 
